@@ -400,6 +400,16 @@ def rule_loop_pending(m):
         res.ok()
     else:
         res.bad("T-LOOP:close:not-constant-false", m.where(cl, "close"), "close() is not close_until(|_| false)")
+    # .. on every path: conclusions collected by an interrupted close_until are kept in the model and only close_until applies
+    # them, and is_dirty() does not see them; a path through close() that does not reach the call leaves them pending
+    skipping = [x for x in walk(cl["b"]) if kind(x) in ("return", "try", "break") or (kind(x) == "macro" and x.get("p") in ("panic", "unreachable", "todo"))]
+    top = [stmt_expr(st) if kind(st) == "expr" else st for st in cl["b"]["s"]]
+    conditional = [x for x in walk(cl["b"]) if kind(x) in ("if", "match", "while", "loop", "for") and any(y is calls[0] for y in walk(x))] if calls else []
+    if calls and not skipping and not conditional:
+        res.ok()
+    elif calls:
+        res.bad("T-LOOP:close:path-without-close_until", m.where(cl, "close"),
+                "close() has a path that does not call close_until (an early return or a conditional call): pending conclusions of an interrupted close_until are never applied")
     res.sample({"modules": len(m.extern_fns), "returns_seen": la.returns, "delta_kinds": sorted(la.kinds), "persist_field": la.persist_field})
     pres.sample({"delta_var": la.delta_var, "kinds": sorted(la.kinds), "persist_field": la.persist_field})
     return res, pres
